@@ -7,6 +7,7 @@ use super::{error::Error, preferred_address::PreferredAddress};
 use crate::{
     cid::ConnectionId,
     role::*,
+    sid::MAX_STREAMS_LIMIT,
     token::ResetToken,
     varint::{VARINT_MAX, VarInt},
 };
@@ -185,13 +186,13 @@ pub enum ParameterId {
     InitialMaxStreamDataBidiRemote = 0x0006,
     #[param(value_type = VarInt, default = 0u32)]
     InitialMaxStreamDataUni = 0x0007,
-    #[param(value_type = VarInt, default = 0u32)]
+    #[param(value_type = VarInt, default = 0u32, bound = 0..=MAX_STREAMS_LIMIT)]
     InitialMaxStreamsBidi = 0x0008,
-    #[param(value_type = VarInt, default = 0u32)]
+    #[param(value_type = VarInt, default = 0u32, bound = 0..=MAX_STREAMS_LIMIT)]
     InitialMaxStreamsUni = 0x0009,
     #[param(value_type = VarInt, default = 3u32, bound = 0..=20)]
     AckDelayExponent = 0x000a,
-    #[param(value_type = Duration, default = Duration::from_millis(25))]
+    #[param(value_type = Duration, default = Duration::from_millis(25), bound = 0..=16383)]
     MaxAckDelay = 0x000b,
     #[param(value_type = Boolean)]
     DisableActiveMigration = 0x000c,
